@@ -408,6 +408,26 @@ func genC09(c *Ctx) {
 		}
 	}
 	if c.Thorough {
+		// five keys: every pair and triple of the 32 strictly increasing sequences over {0..4}; two-stream joins likewise
+		s5 := c09Seqs(4, 5, 0)
+		for _, v := range c09NVariants {
+			for _, a := range s5 {
+				for _, b := range s5 {
+					c09Emit(c, v, [][]int64{a, b})
+					for _, d := range s5 {
+						c09Emit(c, v, [][]int64{a, b, d})
+					}
+				}
+			}
+		}
+		nd5 := c09Seqs(4, 5, 1)
+		for _, v := range []string{"j2i", "j2l"} {
+			for _, l := range nd5 {
+				for _, r := range s5 {
+					c09Emit(c, v, [][]int64{l, r})
+				}
+			}
+		}
 		// four inputs over {0,1,2}
 		s3 := c09Seqs(2, 3, 0)
 		for _, v := range c09NVariants {
@@ -443,7 +463,7 @@ func genC09(c *Ctx) {
 	}
 
 	// ---- seeded random, longer ----
-	n := c.Pick(4000, 80000)
+	n := c.Pick(4000, 400000)
 	for i := 0; i < n; i++ {
 		step := c.Rng.Range(1, 4)
 		maxLen := 12
